@@ -98,6 +98,12 @@ func main() {
 				results = append(results, verifyLemmas(w, ss))
 				continue
 			}
+			if strings.HasPrefix(n, "type:") {
+				for _, fn := range w.funcsOfType(strings.TrimPrefix(n, "type:")) {
+					results = append(results, verifyFunc(w, ss, fn, !*nosweep))
+				}
+				continue
+			}
 			fn, err := w.find(n)
 			if err != nil {
 				fmt.Fprintln(os.Stderr, err)
@@ -145,6 +151,8 @@ func main() {
 		}
 	case "check":
 		os.Exit(checkMain(os.Args[2:]))
+	case "shapes":
+		os.Exit(shapesCmd(os.Args[2:]))
 	case "mapranges":
 		w, err := loadWorld([]string{"./..."})
 		if err != nil {
@@ -208,3 +216,33 @@ func trunc(s string, n int) string {
 }
 
 var _ = ssa.GlobalDebug
+
+// shapesCmd: print what the grammar-shape generator derives for one generated parser package (debugging aid)
+func shapesCmd(args []string) int {
+	w, err := loadWorld([]string{"./..."})
+	if err != nil {
+		fmt.Println(err)
+		return 2
+	}
+	defer w.Close()
+	path := modPath + "/languages/" + args[0]
+	db := w.shapeSet().forPkg(path)
+	if db == nil {
+		fmt.Println("no shapes:", w.shapeNotes)
+		return 1
+	}
+	var names []string
+	for n := range db.ctx {
+		names = append(names, n)
+	}
+	sort.Strings(names)
+	fmt.Printf("%d context types, %d rules, %d with accessor mismatch, start rules %v\n", len(names), len(db.g.rules), len(db.bad), db.start)
+	for _, n := range names {
+		if len(args) > 1 && !strings.Contains(n, args[1]) {
+			continue
+		}
+		cs := db.ctx[n]
+		fmt.Printf("%s (rule %s) syms=%v\n   prefixes(%v)=%v\n   last=%v parents=%v bad=%q\n", n, cs.rule, cs.syms, cs.preOK, cs.pre, cs.suf, db.parents[n], db.bad[n])
+	}
+	return 0
+}
